@@ -28,7 +28,8 @@ MkData(e) == [n \in {"D"} \cup SToSet(e.graphs) \cup {e.quads[i][4] : i \in 1..L
                 {Tup3(e.quads[i]) : i \in {j \in 1..Len(e.quads) : e.quads[j][4] = n}}]
 
 Ctx(s, cf) == [D |-> s.D, active |-> IF cf.union_default THEN DUnion(s.D) ELSE DGet(s.D, "D"), ord |-> cf.ord,
-               dev |-> "KF_C04_pushdown" \in Devs, dev2 |-> "KF_C04_values_leftjoin" \in Devs]
+               dev |-> "KF_C04_pushdown" \in Devs, dev2 |-> "KF_C04_values_leftjoin" \in Devs,
+               union |-> cf.union_default, dev3 |-> FALSE]
 
 (* ---- sub-bags and slices ----------------------------------------------------------- *)
 SubBag(R, Om) == \A x \in SToSet(R) : Count(R, x) <= Count(Om, x)
